@@ -8,7 +8,9 @@
 (*  Family "paths": one or two entries with path lengths around the padding   *)
 (*      and 0xfff boundaries.                                                 *)
 EXTENDS IndexFormat, Json
-CONSTANTS Family, MaxPaths, PathVersions
+CONSTANTS Family, MaxPaths, PathVersions,
+          AllOps,        \* FALSE: only the unmutated states (C24 uses the rendered files as decoder inputs)
+          TreeShapes     \* 2 or 3 shapes of the tree cache per state
 
 Q(n) == Enc32(n)
 Id(k) == [i \in 1..20 |-> (k * 7 + i) % 256]
@@ -32,7 +34,8 @@ PadPaths == << <<80>> \o X(0), <<80>> \o X(1), <<80>> \o X(6), <<80>> \o X(7), <
 
 Root(n, valid, kids) == [name |-> <<>>, num |-> IF valid THEN n ELSE 0 - 1, id |-> IF valid THEN Id(200) ELSE <<>>, children |-> kids]
 Child == [name |-> <<97, 98, 99>>, num |-> 1, id |-> Id(201), children |-> <<>>]
-Trees(n) == { Absent, [present |-> TRUE, root |-> Root(n, TRUE, <<>>)], [present |-> TRUE, root |-> Root(n, FALSE, <<Child>>)] }
+Trees(n) == { Absent, [present |-> TRUE, root |-> Root(n, FALSE, <<Child>>)] }
+            \cup (IF TreeShapes >= 3 THEN { [present |-> TRUE, root |-> Root(n, TRUE, <<>>)] } ELSE {})
 
 VARIABLES st, op, done
 vars == <<st, op, done>>
@@ -55,7 +58,8 @@ States == { [s EXCEPT !.version = InVersion(s)] : s \in (IF Family = "flags" THE
 \* mutations through the State API before writing
 \*   none | remove k (flag REMOVE on entry k) | ita k (flag INTENT_TO_ADD on entry k, *without* touching EXTENDED)
 \*   skip k (flags EXTENDED|SKIP_WORKTREE on entry k)
-Ops(s) == {[kind |-> "none", k |-> 0]}
+Ops(s) == IF ~AllOps THEN {[kind |-> "none", k |-> 0]} ELSE
+          {[kind |-> "none", k |-> 0]}
           \cup (IF Len(s.entries) > 0 THEN {[kind |-> "remove", k |-> 1], [kind |-> "remove", k |-> Len(s.entries)],
                                              [kind |-> "skip", k |-> 1]} ELSE {})
           \cup {[kind |-> "ita", k |-> i] : i \in {j \in 1..Len(s.entries) : j = 1 /\ ~s.entries[j].extended}}
